@@ -30,7 +30,10 @@ CLAIMED = {
    "(operands first, each exactly once, in source order, then the node's own instruction with its operands; a lazy argument as a "
    "constant thunk of the separately compiled argument; the callee looked up where the checker resolved it) is a postcondition over "
    "an activation-local ghost log of the calls made, the dispatch through the intrinsic table being covered by a function-type "
-   "contract every table entry proves. Equality of whole programs on 4 back ends incl. host-call traces: bounded stand-in. "
+   "contract every table entry proves; the closure compiler has the same shape of contract (compile0 compiles every sub-expression "
+   "exactly once in source order and stores the closures in that order in the closure it returns; each run-time closure calls its "
+   "sub-closures once each in that order; staticDispatch / dynamicDispatch / compileArgs / makeCallClosure), and so has the AST "
+   "interpreter. Equality of whole programs on 4 back ends incl. host-call traces: bounded stand-in. "
    "Known finding F13 (call-threaded loop stops after 1024 instructions) is open.",
    TB + BS, TECHB),
  "C04": ("other",
@@ -65,16 +68,20 @@ CLAIMED = {
    "field, subscript container then index, call argument) is evaluated exactly once in source order, a call evaluates nothing but "
    "what resolveFun / interpArgs evaluate and then invokes the function once, lazy arguments are wrapped in order into thunks that "
    "evaluate their expression once per force (sequence postconditions over the activation's own calls, the syntax tree proved "
-   "unchanged). Run-time closures of the closure compiler and whole-program traces: bounded stand-in (trace equality, poisoned "
-   "branches).",
+   "unchanged); closure compiler: each run-time closure (list / map / object literal, subscript, member, call, dynamic dispatch, thunk) "
+   "calls its sub-closures exactly once each in source order - map key before value, container before index, callee before "
+   "arguments, strict arguments before the call, lazy arguments wrapped not evaluated (log of the calls through function values; "
+   "ASSUMED: those calls do not write the closure's captured variables or its arrays of sub-closures). Whole-program traces: "
+   "bounded stand-in (trace equality, poisoned branches).",
    TB + BS, TECHB),
  "C07": ("other",
    "Deductive: the Callable built by (*Expr).Compile reaches the compiled closure only after envCheck has accepted the environment "
    "of THIS call (site assertion at the dynamic call, ghost token envOK(compile env, run env) produced only by envCheck's contract) "
    "and returns envCheck's error otherwise; types.Equals == tyEq (what envCheck compares with), val.(*Env).Get total, envCheck and "
-   "the Callable literal are panic-contained (scan obligation). envCheck's own body (reflection-built environments, recover) is "
-   "outside the subset: its contract is ASSUMED and its accept/reject behaviour is checked by the bounded stand-in over (compile "
-   "env, run env) pairs.",
+   "the Callable literal are panic-contained (scan obligation); the per-binding test envCheck applies returns normally only if the "
+   "run-time environment binds the name and types.Equals (== tyEq) holds between the declared type and the value's type. envCheck's "
+   "iteration over the compile-time environment (Go map range, recover) is outside the subset: its contract is ASSUMED and its "
+   "accept/reject behaviour is checked by the bounded stand-in over (compile env, run env) pairs.",
    TB + BS, TECHB),
  "C08": ("other",
    "Deductive (all inputs, all operator tables): pos.Range span contract; the associativity encoding of the parselets - binaryL / "
@@ -99,7 +106,8 @@ CLAIMED = {
    "forms only (core), which is the explicit-call form of its input (dsg: unary/binary/?: become calls with the operands in source "
    "order, o.f(args) becomes f(o, args) with the receiver first, parentheses disappear, every other node is copied with its "
    "positions and debug columns), writes nothing that existed before the call (frame obligation) and the structural fields of AST "
-   "nodes are written only by constructors (scan). The semantic half (sugared and explicit notation evaluate alike) and idempotence: "
+   "nodes are written only by constructors (scan); the parser turns every parenthesised expression into a Group node around exactly "
+   "the expression parsed inside (parseGroup), which is what keeps (o.f)(x) apart from the method-call sugar o.f(x). The semantic half (sugared and explicit notation evaluate alike) and idempotence: "
    "bounded stand-in. Known finding F20 is open.",
    TB + BS, TECHB),
  "C11": ("other",
@@ -122,7 +130,8 @@ CLAIMED = {
  "C13": ("other",
    "Deductive (scan obligations over go/ssa, functions reachable from the API): the only write to process-wide state outside package "
    "initialisation is tzCache under its mutex (plus the declared in-place sort of an already sorted slice); the only call that prints "
-   "is in the built-in print; AST structure fields and type/value fields are immutable after construction. Determinism of map "
+   "is in the built-in print; AST structure fields and type/value fields are immutable after construction (no evaluation step can "
+   "change a value of the caller's environment or a constant in place). Determinism of map "
    "rendering and reusability of environments: bounded stand-in (interleaved histories, repeated evaluation).",
    TB + BS, TECHB),
  "C15": ("other",
@@ -150,7 +159,8 @@ CLAIMED = {
    "keying injective), the ==/!= handlers and closures on num/bool/str/time; val.Equals / equalsList / equalsObj / equalsMaybe return "
    "exactly the recursive spec valEq (element-wise on lists, field-wise in declared order on objects, payload-wise on optionals, "
    "tolerance on numbers) for all well-formed value trees; equalsMap (Go map iteration) is a trusted contract, String and Key are "
-   "abstract. Agreement of ==, key identity, set membership and rendering on value pairs: bounded stand-in. "
+   "abstract; util.FmtFloat / FmtInt - the one formatter behind rendering, map keys and set membership - return exactly strconv's "
+   "shortest round-trip decimal / the int64 decimal (injectivity of that is strconv's documented behaviour, assumed). Agreement of ==, key identity, set membership and rendering on value pairs: bounded stand-in. "
    "Known findings F12, F22 are open.",
    TB + BS, TECHB),
  "C19": ("other",
